@@ -23,6 +23,19 @@ G (format matrix, E-grid)
     absolute number, so a decision of the import that depends on the absolute size of the
     numbers ("imaginary part close to zero", "value close to zero") is seen.
 
+X (the exported axis in the units of the caller)
+    class {AbsSpectrum, TwoDResponse, DFunction over a FrequencyAxis} x extension x {real,
+    complex} data x shape {(N,), (N,M)} x KIND OF AXIS by the signs and sizes of its values
+    {positive, negative, the Fourier pair of a time axis (centred at zero, zero is a point;
+    both kinds of time axes), through zero between two points, starting at zero, ending at
+    zero, descending, descending through zero, 1e-9 around zero, 1e3 around zero, the single
+    point zero} x EVERY energy unit the Manager knows (the wavelength 'nm' is the non-linear
+    one): export and import with the axis inside ``energy_units(u)`` into another object.
+    Oracle: the axis of the receiver read inside the context is the exported axis as read
+    there, read after the context was left it is the exported axis in internal units as it
+    was before the context - entry by entry, relative to the size of that entry (a point zero
+    is zero); the exporting axis is what it was; the data as in G.
+
 H (parcels, all short histories)
     ``[enter ctx]* [touch] save [exit|enter ctx]* load [read under ctx']`` with ctx in
     {energy_units(u), eigenbasis_of(X)}, nesting <= 2, X in {real symmetric, complex Hermitian}
@@ -485,6 +498,226 @@ def cases_g(tier):
                     for e in scales:
                         cs.append({"part": "G", "cls": "DensityMatrixEvolution", "ext": ext,
                                    "dtype": f, "shape": shape, "axis": False, "scale10": e})
+    cs.sort(key=lambda c: (int(numpy.prod(c["shape"])), len(c["shape"])))
+    return cs
+
+
+# ==========================================================================
+# X: the exported AXIS in the units of the caller (kind of axis x units)
+# ==========================================================================
+# every energy unit the Manager knows (the conversion of 'nm' is the only non-linear one:
+# a reciprocal, zero wavelength standing for zero energy)
+X_UNITS = ["1/fs", "int", "1/cm", "eV", "meV", "THz", "J", "SI", "nm", "Ha", "a.u."]
+# kinds of frequency axes by the sign structure and the size of their values (internal units)
+X_AXES = ["positive", "negative", "fourier-pair-of-time-axis",
+          "fourier-pair-of-upper-half-time-axis", "through-zero-between-points",
+          "from-zero", "up-to-zero", "descending-positive", "descending-through-zero",
+          "close-to-zero", "far-from-zero", "single-point-zero"]
+X_CLASSES = ["AbsSpectrum", "TwoDResponse", "DFunction"]
+
+
+def _x_axis(kind, N, decoy=False):
+    """FrequencyAxis of the kind (made outside every context, internal units).  decoy: the
+    axis of the receiving object - another one of the same length, all values different."""
+    qr = isolation.qr()
+    with qr.energy_units("int"):
+        if decoy:
+            return qr.FrequencyAxis(0.77, N, 0.031)
+        if kind == "positive":
+            return qr.FrequencyAxis(0.1, N, 0.01)
+        if kind == "negative":
+            return qr.FrequencyAxis(-0.5, N, 0.013)
+        if kind == "fourier-pair-of-time-axis":
+            # the complete frequency axis which belongs to a time axis: centred at zero,
+            # the point zero is a point of the axis
+            return qr.TimeAxis(0.0, N, 2.0, atype="complete").get_FrequencyAxis()
+        if kind == "fourier-pair-of-upper-half-time-axis":
+            # the same for the default kind of time axis (twice as many points, N is even)
+            fa = qr.TimeAxis(0.0, N // 2, 2.0).get_FrequencyAxis()
+            if fa.length != N:
+                raise isolation.HarnessError("length of the Fourier pair axis")
+            return fa
+        if kind == "through-zero-between-points":
+            return qr.FrequencyAxis(-0.015, N, 0.01)
+        if kind == "from-zero":
+            return qr.FrequencyAxis(0.0, N, 0.02)
+        if kind == "up-to-zero":
+            return qr.FrequencyAxis(-0.02 * (N - 1), N, 0.02)
+        if kind == "descending-positive":
+            return qr.FrequencyAxis(0.9, N, -0.011)
+        if kind == "descending-through-zero":
+            return qr.FrequencyAxis(0.02, N, -0.02)
+        if kind == "close-to-zero":
+            return qr.FrequencyAxis(-1.0e-9, N, 0.7e-9)
+        if kind == "far-from-zero":
+            return qr.FrequencyAxis(-2.0e3, N, 1.3e3)
+        if kind == "single-point-zero":
+            return qr.FrequencyAxis(0.0, N, 0.01)
+    raise isolation.HarnessError("axis kind " + kind)
+
+
+def _x_make(cls, axis, data):
+    """Object of the class on the axis; (object, keyword arguments of save_data/load_data)"""
+    qr = isolation.qr()
+    if cls == "AbsSpectrum":
+        return qr.AbsSpectrum(axis=axis, data=data), {}
+    if cls == "DFunction":
+        return qr.DFunction(axis, data), {"with_axis": axis}
+    if cls == "TwoDResponse":
+        o = qr.TwoDResponse()
+        o.set_axis_1(axis)
+        o.set_axis_3(axis)
+        o.set_data_writable()
+        o.data = data
+        o.set_data_protected()
+        return o, {"with_axis": axis}
+    raise isolation.HarnessError("class " + cls)
+
+
+def _x_signs(a):
+    a = numpy.real(numpy.asarray(a))
+    return "".join(s for s, c in (("-", numpy.any(a < 0)), ("0", numpy.any(a == 0)),
+                                  ("+", numpy.any(a > 0))) if c)
+
+
+def eval_x(case):
+    """Export and import with the axis inside energy_units(u).  The axis the receiver holds
+    afterwards is (a) inside the context the exported axis as the context shows it and (b)
+    after the context was left the exported axis in internal units - entry by entry, relative
+    to the size of that very entry (a wavelength axis through zero spans any number of
+    decades), a point zero being zero."""
+    qr = isolation.qr()
+    isolation.reset_manager()
+    cls, ext, units, kind = case["cls"], case["ext"], case["units"], case["axkind"]
+    shape = tuple(case["shape"])
+    N = shape[0]
+    viol = []
+    src_axis = _x_axis(kind, N)
+    rec_axis = _x_axis(kind, N, decoy=True)
+    w_int = numpy.array(src_axis.data, copy=True)           # internal units, outside contexts
+    data = _gdata(case["dtype"], shape)
+    cell = "%s/%s/axis-%s/%s" % (ext, "linear-units" if units != "nm" else "wavelength-units",
+                                 kind, "real" if case["dtype"].startswith("real")
+                                 else "complex")
+    what = "%s %s %s data %s, axis %s (signs %s) inside energy_units(%s)" % (
+        cls, ext, case["dtype"], shape, kind, _x_signs(w_int), units)
+    tmp = _mkdtemp("c18x_")
+    fn = os.path.join(tmp, "export" + ext)
+    stage = "build"
+    try:
+        try:
+            src, kws = _x_make(cls, src_axis, data.copy())
+            rec, kwr = _x_make(cls, rec_axis, numpy.zeros(shape, dtype=data.dtype))
+            stage = "enter"
+            with qr.energy_units(units):
+                stage = "read-axis"
+                shown = numpy.array(src_axis.data, copy=True)
+                stage = "export"
+                src.save_data(fn, **kws)
+                stage = "import"
+                rec.load_data(fn, **kwr)
+                stage = "read-inside"
+                shown_back = numpy.array(rec_axis.data, copy=True)
+                spectrum_axis = numpy.array(rec.axis.data, copy=True) \
+                    if cls != "TwoDResponse" else None
+            stage = "read-after-exit"
+            back_int = numpy.array(rec_axis.data, copy=True)
+            back = numpy.asarray(rec.data)
+            src_after = numpy.array(src_axis.data, copy=True)
+        except isolation.HarnessError:
+            raise
+        except Exception as e:
+            where = _lib_frame(e)
+            if where is None:
+                raise isolation.HarnessError("X harness failure at %s: %r in %r"
+                                             % (stage, e, case))
+            viol.append(("axis-units/%s-raises:%s/%s" % (stage, type(e).__name__, cell),
+                         "%s -> %s raised %s: %s [%s]" % (what, stage, type(e).__name__,
+                                                          str(e)[:160], where),
+                         {"where": where}))
+            return {"nontrivial": True, "outcome": ["raises", cls, cell, stage],
+                    "violations": viol}
+    finally:
+        shutil.rmtree(tmp, ignore_errors=True)
+        isolation.reset_manager()
+    dev = {}
+    checks = [("axis-differs-inside-context", shown_back, shown,
+               "axis of the receiver read inside the context differs from the exported axis "
+               "read there"),
+              ("axis-differs-after-exit", back_int, w_int,
+               "axis of the receiver read after the context was left differs from the "
+               "exported axis in internal units"),
+              ("exporting-changes-axis", src_after, w_int,
+               "axis of the EXPORTING object differs from what it was before the export")]
+    if spectrum_axis is not None:
+        checks.insert(1, ("axis-differs-inside-context", spectrum_axis, shown,
+                          "axis property of the receiver read inside the context differs "
+                          "from the exported axis read there"))
+    seen = set()
+    for key, got, ref, msg in checks:
+        if key in seen:
+            continue
+        if numpy.shape(got) != numpy.shape(ref):
+            ok, err = False, float("inf")
+        else:
+            ok, err = _entrywise(got, ref)
+        if ok:
+            dev[key] = max(dev.get(key, 0.0), err)
+        else:
+            seen.add(key)
+            nbad = -1
+            if numpy.shape(got) == numpy.shape(ref):
+                nbad = int(numpy.sum(~(numpy.abs(numpy.asarray(got) - ref)
+                                       <= TOL * numpy.abs(ref))))
+            viol.append(("axis-units/%s/%s" % (key, cell),
+                         "%s: %s (%d of %d points, worst relative deviation of a point %g)"
+                         % (what, msg, nbad, N, err),
+                         {"expected": repr(ref)[:400], "observed": repr(got)[:400]}))
+    if back.shape != data.shape:
+        # the shape rules of the layouts are G's business; values are compared when they can
+        if _drops_only_units(data.shape, back.shape):
+            back = back.reshape(data.shape)
+        else:
+            viol.append(("axis-units/shape-differs/%s" % cell,
+                         "%s: data came back with shape %s" % (what, back.shape), None))
+            back = None
+    if back is not None:
+        ok, err = _entrywise(back, data)
+        if not ok:
+            viol.append(("axis-units/values-differ/%s" % cell,
+                         "%s: loaded values differ from exported ones (worst relative "
+                         "deviation of an entry %g)" % (what, err), {"err": err}))
+        else:
+            dev["values"] = err
+    return {"nontrivial": units not in ("1/fs", "int"),
+            "outcome": ["ok" if not viol else "bad", cls, cell, units, _digest(shown_back),
+                        _digest(back_int)],
+            "violations": viol,
+            "info": {"dev": {"axis-units-" + k: v for k, v in dev.items()}}}
+
+
+def x_bounds(tier):
+    """(lengths N of the axis, second dimensions M of 2-D data, data flavours)"""
+    if tier == "quick":
+        return [5], [3], ["real", "complex"]
+    return [2, 5, 8], [2, 3], ["real", "complex", "complex-small-imag"]
+
+
+def cases_x(tier):
+    Ns, Ms, flav = x_bounds(tier)
+    cs = []
+    for kind in X_AXES:
+        for n in ([1] if kind == "single-point-zero" else Ns):
+            if kind == "fourier-pair-of-upper-half-time-axis":
+                n += n % 2
+            for cls in X_CLASSES:
+                shapes = [[n]] + ([[n, m] for m in Ms] if cls != "DFunction" else [])
+                for shape in shapes:
+                    for units in X_UNITS:
+                        for ext in EXTS:
+                            for f in flav:
+                                cs.append({"part": "X", "cls": cls, "ext": ext, "dtype": f,
+                                           "shape": shape, "axkind": kind, "units": units})
     cs.sort(key=lambda c: (int(numpy.prod(c["shape"])), len(c["shape"])))
     return cs
 
@@ -1882,6 +2115,8 @@ def cases_r(tier):
 def eval_case(case):
     if case["part"] == "G":
         return eval_g(case)
+    if case["part"] == "X":
+        return eval_x(case)
     if case["part"] == "D":
         return eval_d(case)
     if case["part"] == "I":
@@ -1896,7 +2131,7 @@ def replay(case):
 
 
 def cases(tier):
-    return cases_g(tier) + cases_r(tier) + cases_d(tier) + cases_i(tier) + cases_h(tier)
+    return cases_g(tier) + cases_x(tier) + cases_r(tier) + cases_d(tier) + cases_i(tier) + cases_h(tier)
 
 
 def _collect_i(infos):
@@ -1944,7 +2179,11 @@ def run(run):
                 "steps {export 0/1/longer, import, write in place} on one data file name x "
                 "class x extension x dtype x axis and of <=%d steps {save 0/1, load} on one "
                 "parcel name x class x route, every receiver read again after every step, "
-                "non-trivial = a receiver exists before the last step"
+                "non-trivial = a receiver exists before the last step; X: full product "
+                "class x extension x {real, complex} x shape x kind of frequency axis (signs "
+                "and sizes of its values) x every energy unit of the Manager, export and "
+                "import with the axis inside energy_units(u), non-trivial = units other "
+                "than the internal ones"
                 % ((maxdepth, lmid, d_bounds(run.tier), i_bounds(run.tier)[1])
                    + r_bounds(run.tier)))
     run.assumptions = [
@@ -1975,6 +2214,10 @@ def run(run):
         "R: a longer, never a shorter array is exported over a file receivers imported from; "
         "after a write in place only the OTHER receivers and the file are claimed unchanged, "
         "the written receiver is re-read and taken as it is",
+        "X: export and import are made in the same units context (a file holds the numbers "
+        "of the units it was written in); the expected axis values are the ones the exported "
+        "axis itself shows at the same place (inside) and showed before the context (internal "
+        "units), so no conversion factor is an input of the oracle",
         "G shape rule: where the layout of the file cannot tell a dimension of length one "
         "from no dimension (header-less .dat/.txt tables without axis; [axis | data] layout "
         "with one data column) the loaded shape may be the exported one with unit dimensions "
@@ -1985,6 +2228,10 @@ def run(run):
                                     "DensityMatrixEvolution"],
                         "data_scale_powers_of_ten": [0] + G_SCALES[run.tier],
                         "scaled_flavours": list(G_SCALED_FLAVOURS)},
+                  "X": {"classes": X_CLASSES, "extensions": EXTS, "units": X_UNITS,
+                        "axis_kinds": X_AXES, "axis_lengths": x_bounds(run.tier)[0],
+                        "second_dimensions": x_bounds(run.tier)[1],
+                        "data_flavours": x_bounds(run.tier)[2]},
                   "D": {"tags": D_TAGS, "max_calls": d_bounds(run.tier),
                         "objects": D_OBJECTS, "casts": len(CLASSES)},
                   "H": {"contexts": tokens, "max_nesting": maxdepth, "max_mid_ops": lmid,
@@ -2001,6 +2248,7 @@ def run(run):
                         "data_cells": [list(c) for c in _r_cells(run.tier)],
                         "parcel_routes": R_PARCEL_ROUTES}}
     ig = run_grid(run, cases_g(run.tier), eval_case, section="G-formats")
+    ig += run_grid(run, cases_x(run.tier), eval_case, section="X-axis-in-units")
     ir = run_grid(run, cases_r(run.tier), eval_case, section="R-file-reuse")
     run_grid(run, cases_d(run.tier), eval_case, section="D-directories")
     ii = run_grid(run, cases_i(run.tier), eval_case, section="I-import-in-context")
